@@ -1,5 +1,6 @@
 """Drive rig.machine_control.packets on JSON-described cases (runs under /venv/bin/python, PYTHONPATH=/repo).
 
+A field value {"np": T, "v": x} stands for the numpy scalar numpy.T(x).
 A packet is the list  [reply_expected, tag, dest_port, dest_cpu, src_port, src_cpu, dest_x, dest_y,
 src_x, src_y, data]  (SDP)  followed by  cmd_rc, seq, arg1, arg2, arg3  (SCP; an absent argument is null);
 data and byte strings are lists of ints.
@@ -22,11 +23,23 @@ H = ["reply_expected", "tag", "dest_port", "dest_cpu", "src_port", "src_cpu", "d
 S = ["cmd_rc", "seq", "arg1", "arg2", "arg3"]
 
 
+def conv(x):
+    """{"np": "uint8", "v": 200} -> numpy.uint8(200) (a field value given as a numpy scalar); lists elementwise"""
+    if isinstance(x, dict):
+        import numpy
+        return getattr(numpy, x["np"])(x["v"])
+    if isinstance(x, list):
+        return [conv(y) for y in x]
+    return x
+
+
 def mk_sdp(p, buf=bytes):
+    p = conv(p)
     return SDPPacket(**dict(zip(H, p[:10]), data=buf(p[10])))
 
 
 def mk_scp(q, buf=bytes):
+    q = conv(q)
     return SCPPacket(**dict(zip(H + ["data"] + S, q[:10] + [buf(q[10])] + q[11:16])))
 
 
@@ -98,7 +111,7 @@ def hist_enc(c):
                 r = r + [dec(SCPPacket, show_scp, r[1], op[1]) if scp else dec(SDPPacket, show_sdp, r[1])]
             out.append(r)
         elif op[0] == "set":
-            v = op[2]
+            v = conv(op[2])
             if op[1] == 10:
                 v = bytearray(v) if op[3] else bytes(v)
             setattr(pkt, names[op[1]], v)
